@@ -307,7 +307,7 @@ pub fn run(args: &Args) -> i32 {
          family raw: KeyBytes at chosen distances over all 256 buckets (incl. buckets 0-3) with targets at edge distances from local/stored keys. Non-trivial = table with >= 2 stored keys; distinct by (local, bucket size, targets)",
     )));
     let n = args.extra.get("budget").map(|b| if b == "tiny" { 3 } else { 500 }).unwrap_or(args.tier.pick(12_000, 400_000));
-    let dog = Dog::start(check, 60);
+    let dog = Dog::start(check, if args.extra.get("budget").is_some() { 3_600 } else { 60 });
     vmon::par_cases(check, n, args.threads, |i, rng| {
         dog.enter(|| format!("case {i}"));
         if i % 3 == 0 { hashed_case(check, rng) } else { raw_case(check, rng) }
